@@ -49,7 +49,8 @@ func installOps(in *Interp, p *Pkg) {
 			}
 			test := cl.Cells[0]
 			hit := false
-			if test.K == KSym && !test.Quoted && (test.S == "else" || test.S == ":else") {
+			// `:else` is an ordinary keyword -- a true test wherever it stands; only the bare symbol is the else marker
+			if test.K == KSym && !test.Quoted && test.S == "else" {
 				if i != len(a)-1 {
 					return nil, in.errf(at, "error", "else must be the last clause")
 				}
